@@ -21,14 +21,23 @@ func main() {
 	if err := os.MkdirAll(*out, 0o755); err != nil {
 		panic(err)
 	}
-	_ = replay
-	var res *result
-	switch *prop {
-	case "C19":
-		res = runC19(*seed, *tier, *out)
-	default:
+	run, ok := runners[*prop]
+	if !ok {
 		fmt.Fprintln(os.Stderr, "unknown property", *prop)
 		os.Exit(2)
 	}
+	replayFile = *replay
+	res := run(*seed, *tier, *out)
 	writeJSON(filepath.Join(*out, "result.json"), res)
+}
+
+// runners: one entry per property, registered by the property's own file in init().
+var runners = map[string]func(seed int64, tier string, outDir string) *result{}
+
+// replayFile is the path given with -replay ("" when none); a runner that supports replay
+// re-executes only the recorded case.
+var replayFile string
+
+func register(prop string, f func(seed int64, tier string, outDir string) *result) {
+	runners[prop] = f
 }
